@@ -40,13 +40,15 @@ CLAIMED = {
             "exception counts as rejection; UTF-8 validity and negative Unsigned64 are not judged.",
             "DESIGN.md 4/C10"),
     "C03": ("ENUM", "fault_enumeration",
-            "systematic fault enumeration on reference-encoded seeds under a deterministic step counter",
+            "systematic fault enumeration on reference-encoded seeds under a deterministic step counter + fault injection into a live node under the schedule explorer",
             "Every truncation point, every length field (all nesting levels) x a value alphabet, every byte x 4 "
             "replacements, typed-data faults for every dictionary class, garbage strings, through the three load "
             "entry points under a sys.monitoring line counter with a frozen bound 150000 + 5300 L + 0.2 L^2; "
             "thorough adds all 2^24 values on two length fields of a DWR.",
-            "Decoder part only in this tree (the live-node part is listed in DESIGN.md as not yet decided); step = "
-            "one bromelia source line; which library error is raised is not constrained.",
+            "Live part: each of 18 fault classes injected into a real node in 5 connection states on the virtual runtime "
+            "(d = 0 all, d <= 1 on four), then send_message()/close() must return, no lock may be stuck, workers survive "
+            "or the connection is closed cleanly. Step = one bromelia source line; which library error is raised is not "
+            "constrained.",
             "DESIGN.md 4/C03"),
     "C04": ("SCHED", "model_checking",
             "stateless deviation-bounded schedule exploration of the real receive path on a virtual runtime with a fake socket",
@@ -163,13 +165,14 @@ CLAIMED = {
             "number of deviations; liveness under the fair continuation after the last deviation.",
             "DESIGN.md 4/C14"),
     "C15": ("HIST", "model_checking",
-            "exhaustive exploration of creation histories x the answer tree of the random source on the real constructors",
+            "exhaustive exploration of creation histories x the answer tree of the random source, and of schedules of concurrent creators, on the real constructors",
             "All creation histories of length <= 3/4 over 6 creation kinds x every os.urandom answer sequence over a "
             "3-symbol alphabet (lazy branching at every draw, <= 8/10 draws): auto-header requests pairwise distinct "
             "in Hop-by-Hop and End-to-End, explicit-header requests and answers consume no draw, grow no registry and "
             "keep their identifiers.",
-            "os.urandom substituted as a module global of bromelia.base; data-independence argument for 3 symbols; "
-            "sequential creations only (the concurrent clause needs the schedule explorer and is not yet decided).",
+            "Concurrent clause: 2 (thorough 3) creator threads on the schedule explorer with the random source's answers "
+            "{fresh, same-as-last} as environment choices, every schedule with <= 2 (3) deviations. os.urandom substituted "
+            "as a module global of bromelia.base; data-independence argument for 3 symbols.",
             "DESIGN.md 4/C15"),
     "C16": ("HIST", "model_checking",
             "explicit-state breadth-first search over generation histories on the real Session-Id generator with a virtual clock",
